@@ -15,20 +15,26 @@ from mc.hist import Impl, Model, ddmin, render, script, tuplify
 PROPERTY = "C09"
 LEVEL = "model_checking"
 
-INIT = [("x", (2,), 0, False)]
-CFG_Q = dict(ops2=("mul",), iops=("iadd",), set_idx=(), clears=("backward",), max_live=4, peek=True)
-CFG_T = dict(ops2=("mul", "add"), iops=("iadd", "imul"), set_idx=("i0",), clears=("backward", "clear"), max_live=4, peek=True)
-BOUNDS = {"quick": (CFG_Q, 5), "thorough": (CFG_T, 5)}
+INIT = [("x", (2,), 0, False), ("y", (2,), 3, False)]
+CFG_Q = dict(ops2=("mul",), iops=("iadd",), set_idx=(), clears=("backward",), max_live=4, peek=True, viaview=True, rawwrite=True, outc=(True,))
+CFG_T = dict(ops2=("mul", "add"), iops=("iadd", "imul"), set_idx=("i0",), clears=("backward", "clear"), max_live=5, peek=True, viaview=True, rawwrite=True, outc=(True, False))
+CFG_Q1 = dict(ops2=("mul",), iops=("iadd",), set_idx=(), clears=("backward",), max_live=5, peek=True, no_y=True)  # one leaf, deeper
+# the memory guard as the last line of defence: ops through a transient view, direct writes by the caller, re-use
+CFG_Q3 = dict(ops2=("mul",), iops=(), set_idx=(), clears=("backward",), max_live=5, viaview=True, rawwrite=True, no_y=True)
+CFGS = {"q1": CFG_Q1, "q2": CFG_Q, "q3": CFG_Q3, "t": CFG_T}
+BOUNDS = {"quick": [("q1", 5), ("q2", 4), ("q3", 5)], "thorough": [("q1", 6), ("q3", 6), ("t", 5)]}
 
 
 def enabled(m, cfg, out):
-    live = list(m.order)
+    live = [n for n in m.order if not (cfg.get("no_y") and n == "y")]
     sts = []
     if len(live) < cfg["max_live"]:
         for o in cfg["ops2"]:
             for i, a in enumerate(live):
                 for b in live[i:]:
                     sts.append(("op2", out, ("t", a), ("t", b), o))
+        if cfg.get("viaview"):
+            sts.append(("op1", out, "x", "viaview"))
     for t in live:
         for o in cfg["iops"]:
             sts.append(("iop", t, o, ("c", "c0") if o == "iadd" else ("c", "c2")))
@@ -40,6 +46,10 @@ def enabled(m, cfg, out):
     if cfg.get("peek"):
         for t in live:
             sts.append(("peek", t))
+    if cfg.get("rawwrite"):
+        sts.append(("rawwrite", "x"))
+    for c in cfg.get("outc", ()):
+        sts.append(("outc", "x", c))
     return sts
 
 
@@ -52,11 +62,24 @@ class Exec:
         self.model = Model(INIT, seed=seed)
         self.ids = {n: id(self.impl.t[n]) for n in self.impl.order}
         self.detach = {}
+        self.raw_ok = {}
+        self.model.raw_ok = self.raw_ok
         self.failure = None
         self.loud = False
         self.steps = 0
         for i, st in enumerate(h):
             st = tuple(st)
+            if st[0] == "rawwrite":
+                # the implementation goes first: whether the write is accepted is an observation
+                self.impl.apply(st)
+                self.raw_ok[i] = bool(self.impl.raw_written)
+                self.model.apply(st)
+                self.steps += 1
+                f = explore.c04_check(self.impl, self.model, self.ids)
+                if f is not None:
+                    self.failure = (i, st) + f
+                    return
+                continue
             self.model.apply(st)
             self.impl.detached = None
             try:
@@ -75,7 +98,7 @@ class Exec:
             self.steps += 1
             if self.impl.detached is not None:
                 self.detach[i] = self.impl.detached
-            if st[0] == "op2":
+            if st[0] in ("op2", "op1"):
                 self.ids[st[1]] = id(self.impl.t[st[1]])
             f = explore.c04_check(self.impl, self.model, self.ids)
             if f is not None:
@@ -104,7 +127,7 @@ def final_check(h, seed, L):
         if eb[0] == "InvalidBackprop":
             return "InvalidBackprop", None
         return "exception", ("exception", L, "%s: %s" % eb)
-    m0, exp = csad.expected_grads(INIT, h, seed, terminal=lambda m: m.a[L].sum(), detach=ex.detach)
+    m0, exp = csad.expected_grads(INIT, h, seed, terminal=lambda m: m.a[L].sum(), detach=ex.detach, raw_ok=ex.raw_ok)
     out = "grads"
     fail = None
     for n in impl.order:
@@ -127,7 +150,7 @@ def final_check(h, seed, L):
 
 def run_task(task):
     cfgname, prefix, depth, seed = task
-    cfg = BOUNDS[cfgname][0]
+    cfg = CFGS[cfgname]
     acc = base.Acc()
     stack = [list(prefix)]
     while stack:
@@ -156,7 +179,7 @@ def run_task(task):
                 acc.outcome("final:" + outc + (":" + f[0] if f else ""))
                 if f is not None:
                     acc.violation({"case": {"history": h, "seed": seed, "L": L}, "failure": (len(h), ("backward", L)) + f})
-            if any(st[0] in ("iop", "set") for st in h):
+            if any(st[0] in ("iop", "set", "rawwrite", "outc") for st in h):
                 acc.nontrivial.add(base.stable_hash(h))
         acc.inc("traces")
         if len(acc.samples) < 2 and len(h) == depth and has_clear:
@@ -168,26 +191,28 @@ def run_task(task):
 
 
 def plan(tier, seed):
-    cfg, depth = BOUNDS[tier]
-    pre = [[]]
-    for _ in range(2):
-        nxt = []
-        for h in pre:
-            m = Model(INIT, seed=seed)
-            for st in h:
-                m.apply(st)
-            nxt += [h + [st] for st in enabled(m, cfg, "t%d" % len(h))]
-        pre = nxt
-    tasks = [(tier, p, depth, seed) for p in pre]
-    # histories shorter than 2 statements
-    tasks += [(tier, [], 0, seed)] + [(tier, [st], 1, seed) for st in enabled(Model(INIT, seed=seed), cfg, "t0")]
+    tasks = []
+    for cfgname, depth in BOUNDS[tier]:
+        cfg = CFGS[cfgname]
+        pre = [[]]
+        for _ in range(2):
+            nxt = []
+            for h in pre:
+                m = Model(INIT, seed=seed)
+                for st in h:
+                    m.apply(st)
+                nxt += [h + [st] for st in enabled(m, cfg, "t%d" % len(h))]
+            pre = nxt
+        tasks += [(cfgname, p, depth, seed) for p in pre]
+        tasks += [(cfgname, [], 0, seed)] + [(cfgname, [st], 1, seed) for st in enabled(Model(INIT, seed=seed), cfg, "t0")]
+    cfg, depth = CFGS[BOUNDS[tier][-1][0]], BOUNDS[tier][-1][1]
     return dict(
         tasks=tasks,
         run=run_task,
         rule="all statement sequences up to the depth bound over {new op on live tensors, in-place update, backward/clear_graph "
         "on any live tensor}; every history containing a clear event is closed by L.backward() for every live L on a fresh replay; "
         "non-trivial = history with a clear event and an in-place update",
-        bounds={"depth": depth, "max_live": cfg["max_live"], "alphabet": {k: v for k, v in cfg.items()}},
+        bounds={name: {"depth": d, "alphabet": CFGS[name]} for name, d in BOUNDS[tier]},
         assumptions=[
             "one leaf x:(2,), no held views, only transient ones `x[:1]` (across graph epochs a cleared view's relation to its base is not defined by the property)",
             "which tensors a clear event turns into leaves is read off the implementation's own graph (creator.variables walk)",
@@ -227,7 +252,7 @@ def finalize(v):
     kind = f0[2]
 
     def fails(c):
-        if L is not None and L not in [i[0] for i in INIT] + [s[1] for s in c if s[0] == "op2"]:
+        if L is not None and L not in [i[0] for i in INIT] + [s[1] for s in c if s[0] in ("op2", "op1")]:
             return False
         f = _fails(c, seed, L)
         return f is not None and f[2] == kind
@@ -267,6 +292,11 @@ def m_stale_consumer_after_clear(v):
             return False
     ex = Exec(h, seed)
     if ex.failure is not None or ex.loud:
+        ex.close()
+        return False
+    if any(ex.raw_ok.values()):
+        # a direct write by the caller went through although the written tensor is still part of the graph that is
+        # back-propagated: that is a memory-guard failure, never this finding (a stale op holds its lock on the array)
         ex.close()
         return False
     stack = [ex.impl.t[L]]
